@@ -522,6 +522,27 @@ def run(ctx):
             ctx.violation('default-cost-not-zero', {'default_value': {'type': ty.__name__, 'layer_spec': ls, 'successive_default_costs': vals, 'default_cost_of_a_new_specification': other}},
                           'the zero default of a specification returned %s on successive lookups for %s (a caller added 421 in place to each returned value), and %s on a new specification' % (vals, ty.__name__, other))
 
+    # ---- (h) the 'fail' default is an ERROR for every unmatched layer, whatever the layer holds (vars() of parameter-free modules
+    #          included), and the 'zero' default a zero cost for the same layers
+    unmatched = [(nn.ReLU, dict(vars(nn.ReLU()))), (nn.MaxPool2d, dict(vars(nn.MaxPool2d(2)))), (nn.Flatten, dict(vars(nn.Flatten()))), (nn.Dropout, dict(vars(nn.Dropout(0.1)))),
+                 (nn.BatchNorm2d, dict(vars(nn.BatchNorm2d(3)))), (nn.Linear, {'in_features': 8, 'out_features': 4}), (nn.Conv2d, dict(vars(nn.Conv2d(2, 3, 1)))), (nn.Identity, {})]
+    for ty, ls in unmatched:
+        for default in ('fail', 'zero'):
+            sp = cs.CostSpec(default_behavior=default)
+            sp[(nn.Conv1d, None)] = _mk(9)
+            try:
+                out = ('value', float(sp[(ty, ls)](ls)))
+            except KeyError:
+                out = ('raises', 'KeyError')
+            except Exception as e:
+                out = ('raises', type(e).__name__)
+            want = ('raises', 'KeyError') if default == 'fail' else ('value', 0.0)
+            ctx.case(('default-on-unmatched', ty.__name__, default), nontrivial=True, kind='default-value')
+            ctx.corr += 1
+            if out != want:
+                ctx.violation('default-differs-from-declared-behaviour', {'default_on_unmatched': {'type': ty.__name__, 'default': default, 'layer_spec_keys': sorted(map(str, ls))[:12]}, 'impl_outcome': out, 'required': want},
+                              'a specification with default_behavior=%r gives %s for an unmatched %s layer, required %s' % (default, out, ty.__name__, want))
+
     # ---- (e) registrations interleaved with lookups on one CostSpec object: every lookup must equal the lookup on a
     #          fresh object with the registrations made so far (and the model on that prefix)
     specs_by_type = {t: constraints_for(t, pt)[1] for t in TYPES}
@@ -571,6 +592,20 @@ def run(ctx):
 def replay(r):
     torch, nn, cs, pt = _env()
     c = r.get('case')
+    if 'default_on_unmatched' in r:
+        d = r['default_on_unmatched']
+        ty = getattr(nn, d['type'])
+        mk = {'ReLU': lambda: nn.ReLU(), 'MaxPool2d': lambda: nn.MaxPool2d(2), 'Flatten': lambda: nn.Flatten(), 'Dropout': lambda: nn.Dropout(0.1), 'BatchNorm2d': lambda: nn.BatchNorm2d(3),
+              'Conv2d': lambda: nn.Conv2d(2, 3, 1)}.get(d['type'])
+        ls = dict(vars(mk())) if mk else ({'in_features': 8, 'out_features': 4} if d['type'] == 'Linear' else {})
+        sp = cs.CostSpec(default_behavior=d['default'])
+        try:
+            out = ('value', float(sp[(ty, ls)](ls)))
+        except KeyError:
+            out = ('raises', 'KeyError')
+        want = ('raises', 'KeyError') if d['default'] == 'fail' else ('value', 0.0)
+        print('default', d['default'], 'on unmatched', d['type'], '->', out, 'required', want)
+        return 0 if out == want else 1
     if 'copies' in r or 'default_value' in r:
         import copy as _copy
         if 'default_value' in r:
